@@ -189,6 +189,56 @@ def monitor_layers(files, d, idx):
     return v
 
 
+def fw_helper(w):
+    """FractionsConfigWrapper -> (enabled, accuracy, max_denominator, max_whole), None where not given"""
+    if w[0] == "t":
+        return (w[1], None, None, None)
+    return (w[1], w[2], w[3], w[4])
+
+
+def fr_define(h):
+    """the documented defaults (disabled, 5 %, denominators up to 4, any whole part) and ranges"""
+    acc = h[1] if h[1] is not None else Fraction(13421773, 268435456)      # 0.05f32
+    return (h[0] if h[0] is not None else False, min(max(acc, 0), 1),
+            min(max(h[2] if h[2] is not None else 4, 1), 16), h[3] if h[3] is not None else 4294967295)
+
+
+def monitor_fractions(files, d, idx):
+    """The per-quantity and per-unit fraction settings, stated independently: every field of the setting of a unit
+    that has an entry is the first one defined by: its own entry (the last given), the setting of its quantity, of
+    its system, of `all` - each of these being the one in force after ALL the layers."""
+    v = []
+    units = d["units"]
+    layers = [f["fr"] for f in files if f["fr"] is not None]
+    final = {"all": None, "metric": None, "imperial": None}
+    qf = {}
+    for fr in layers:
+        for k in final:
+            if fr[k] is not None:
+                final[k] = fr[k]
+        for q, w in fr["q"].items():
+            qf[q] = w
+    if dict(d["fr"]["q"]) != {q: fr_define(fw_helper(w)) for q, w in qf.items()}:
+        v.append("fractions_quantity_not_last_given")
+    want = {}
+    for fr in layers:
+        for k, w in fr["u"].items():
+            t = idx.get(k)
+            if t is None or t >= len(units):
+                v.append("fractions_key_of_no_unit_accepted")
+                continue
+            u = units[t]
+            chain = [fw_helper(w)]
+            for x in (qf.get(u["q"]), final["metric"] if u["sys"] == "m" else final["imperial"] if u["sys"] == "i" else None,
+                      final["all"]):
+                if x is not None:
+                    chain.append(fw_helper(x))
+            want[t] = fr_define(tuple(next((h[i] for h in chain if h[i] is not None), None) for i in range(4)))
+    if dict(d["fr"]["u"]) != want:
+        v.append("fractions_unit_setting_not_unit>quantity>system>all_of_the_final_layers")
+    return v
+
+
 def monitor(files, d, api):
     """The property on the implementation's converter `d` (parsed dump) built from `files` (parsed, as the
     implementation saw them).  Returns the list of violated clauses."""
@@ -346,6 +396,7 @@ def monitor(files, d, api):
                 v.append("fractions_accuracy")
             if md is not None and got[2] != min(max(md, 1), 16):
                 v.append("fractions_max_denominator")
+    v.extend(monitor_fractions(files, d, idx))
     for _, c in d["fr"]["q"] + d["fr"]["u"]:
         if not (0 <= c[1] <= 1) or not (1 <= c[2] <= 16):
             v.append("fractions_clamp")
